@@ -3,13 +3,14 @@ PROP = {
     "lemma_modules": ["Discv5Model.Proofs.IpFilterLemmas", "Discv5Model.Proofs.IpFilterFold", "Discv5Model.Proofs.IpFilterStep",
                       "Discv5Model.Proofs.IpFilterOps", "Discv5Model.Proofs.IpFilterTable", "Discv5Model.Proofs.IpFilterBucket",
                       "Discv5Model.Proofs.IpFilterShapes", "Discv5Model.Proofs.KBucketLemmas"],
-    "engines": [{"name": "kbucket", "quick": 160, "thorough": 6000}],
+    "engines": [{"name": "kbucket", "quick": 160, "thorough": 6000}, {"name": "service", "quick": 60, "thorough": 3000, "model": False}],
     "rule": "kbucket engine, C16 profile: IP table+bucket filters on, records from 2-3 /24 subnets (hot buckets mostly "
             "records without IPv4 so they can fill; 16 spread buckets mostly one /24 to saturate the table limit), record "
             "updates that move a node between subnets, pending candidates with all three timeout regimes, plus a "
             "directed prefix (pending candidate of a /24, then more inserts of that /24 elsewhere, then promotion). "
             "Monitor after every op: per-bucket and per-table (stored + pending) counts per /24. "
             "non-trivial = op refused by a filter or executed with a pending node present",
+    "rule_service": "service engine (monitors only, no model comparison: the service model has no IP filter): a real Service configured with ip_limit; peers of one /24 spread over seven buckets arrive through sessions, explicit adds, lookup answers and record updates announced by PING and fetched with FINDNODE[0]; after every op at most 2 nodes per bucket and 10 per table (pending included) share a /24",
     "nontrivial": [("kbucket", "kins.failed.bucket-filter"), ("kbucket", "kins.failed.table-filter"), ("kbucket", "kb.ops-with-pending")],
     "engine": "kbucket",
     "design_ref": "DESIGN.md section 5 / C16",
